@@ -101,8 +101,9 @@ func ChildMain(id string, shard, n int, dir string) int {
 		tier = "quick"
 	}
 	c := NewCtx(id, tier, EnvSeed(), shard, n, dir)
+	c.ResPath = filepath.Join(dir, fmt.Sprintf("res%d.json", shard))
 	s.Run(c)
-	if err := c.Finish(filepath.Join(dir, fmt.Sprintf("res%d.json", shard))); err != nil {
+	if err := c.Finish(c.ResPath); err != nil {
 		fmt.Fprintln(os.Stderr, "finish:", err)
 		return 3
 	}
